@@ -683,6 +683,17 @@ func c17Large(w *mon.W) {
 					if err != nil {
 						m := desc()
 						m["error"] = err.Error()
+						total := 0
+						for _, t := range set {
+							total += len(t.sealed) + 8
+						}
+						m["total_sealed_bytes"] = total
+						if strings.Contains(err.Error(), "demanded too many resources") && total >= 10<<20 && (format == 0 || format == 2) {
+							// the dependency's DAG-CBOR decoder has a fixed allocation budget of 10 MiB per
+							// document: a CBOR container holding more than that is written but cannot be read
+							w.Violate("roundtrip/read-fails/allocation-budget/"+containerNames[format]+"/over-10MiB", fmt.Sprintf("a %s container of %d tokens (%d bytes of sealed tokens, more than the 10 MiB allocation budget of the DAG-CBOR decoder) written by the library cannot be read back: %v", containerNames[format], n, total, err), m)
+							continue
+						}
 						w.Violate("roundtrip/read-fails/large/"+containerNames[format], fmt.Sprintf("a %s container of %d tokens written by the library cannot be read back: %v", containerNames[format], n, err), m)
 						continue
 					}
